@@ -676,7 +676,14 @@ func c14ZeroArea(c *fw.Ctx, idx int) {
 	c.Distinct(fmt.Sprintf("zero/%d/%s", npoly, layout))
 	gp := make([]*geom.Polygon, len(polys))
 	for i, p := range polys {
-		gp[i] = c14BuildPolygon(p, layout, r)
+		pl := layout
+		if (layout == geom.XYZ || layout == geom.XYM) && r.Chance(1, 3) {
+			// XYZ and XYM polygons in one list: the third ordinate is none of a planar
+			// centroid's business, whatever it is called
+			pl = geom.XYZ + geom.XYM - layout
+			c.Count("polygons_of_XYZ_and_XYM_in_one_list")
+		}
+		gp[i] = c14BuildPolygon(p, pl, r)
 	}
 	var got geom.Coord
 	if c.Guard("panic", func() { got = xy.PolygonsCentroid(gp[0], gp[1:]...) }) {
